@@ -14,6 +14,9 @@ pub struct Ran {
     pub reject: Option<(usize, String)>,   // index of the first result an ordered map cannot return, + note
     pub pages: u32,
     pub root: u32,
+    pub deltas: Vec<String>,
+    pub roots: Vec<u32>,
+    pub pages_decoded: u64,
 }
 
 fn universe(rng: &mut Rng, kind: &str, n: usize) -> Vec<KeySpec> {
@@ -56,11 +59,33 @@ fn pick_len(rng: &mut Rng, s: &Sizes) -> u32 {
     else { s.lo + rng.below((s.hi - s.lo + 1) as u64) as u32 }
 }
 
-pub struct Runner { pub ex: Exec, pub oracle: Oracle, pub hist: History, pub obs: Vec<Obs>, pub reject: Option<(usize, String)>, pub stopped: bool, tagc: u32 }
+pub struct Runner { pub ex: Exec, pub oracle: Oracle, pub hist: History, pub obs: Vec<Obs>, pub reject: Option<(usize, String)>, pub stopped: bool, tagc: u32,
+    /// C29: decoded page deltas after every operation
+    pub track: bool, pub deltas: Vec<String>, pub roots: Vec<u32>, prev: Vec<Vec<u8>>, pub pages_decoded: u64 }
 impl Runner {
     pub fn new(kind: &str, keys: Vec<KeySpec>) -> Runner {
         let ex = Exec::new("c28", &keys);
-        Runner { ex, oracle: Oracle::new(), hist: History { kind: kind.to_string(), keys, ops: vec![] }, obs: vec![], reject: None, stopped: false, tagc: 0 }
+        Runner { ex, oracle: Oracle::new(), hist: History { kind: kind.to_string(), keys, ops: vec![] }, obs: vec![], reject: None, stopped: false, tagc: 0, track: false, deltas: vec![], roots: vec![], prev: vec![], pages_decoded: 0 }
+    }
+    /// decode (through the public accessors) every page whose bytes changed since the previous operation
+    fn page_delta(&mut self) -> String {
+        let n = self.ex.real.page_count() as usize;
+        let mut out = String::from("[");
+        let mut first = true;
+        for p in 1..n {
+            let bytes = self.ex.real.storage.as_ref().unwrap().page(p as u32).map(|b| b.to_vec()).unwrap_or_default();
+            if self.prev.len() <= p { self.prev.resize(p + 1, vec![]); }
+            if self.prev[p] == bytes { continue; }
+            if self.prev[p].is_empty() && p == 1 && self.hist.ops.is_empty() { /* root page of the fresh tree: still printed if it differs from the initial leaf */ }
+            let term = super::pages::decode_page(&bytes, &self.ex.key_idx);
+            self.prev[p] = bytes;
+            self.pages_decoded += 1;
+            if !first { out.push(';'); }
+            first = false;
+            out.push_str(&format!("({},{})", p, term));
+        }
+        out.push(']');
+        out
     }
     pub fn tag(&mut self) -> u32 { self.tagc += 1; self.tagc }
     /// run one operation; false once the history has ended (first unacceptable or out-of-scope result)
@@ -69,11 +94,16 @@ impl Runner {
         let op = self.ex.canon(op);
         let (obs, msg) = self.ex.run(&op);
         let v = self.oracle.judge(&self.ex.keys, &op, &obs);
+        if self.track { let d = self.page_delta(); self.deltas.push(d); self.roots.push(self.ex.real.root); }
         self.hist.ops.push(op);
         self.obs.push(obs);
         match v {
             Verdict::Accept => true,
-            Verdict::Reject => { self.reject = Some((self.hist.ops.len() - 1, msg.unwrap_or_default())); self.stopped = true; false }
+            Verdict::Reject => {
+                if self.reject.is_none() { self.reject = Some((self.hist.ops.len() - 1, msg.unwrap_or_default())); }
+                // diagnosis aid only: C28_NOSTOP=1 keeps running after the first rejected result (such runs are not judged)
+                if std::env::var("C28_NOSTOP").is_ok() { return true; }
+                self.stopped = true; false }
             Verdict::OutOfScope => { self.stopped = true; false }
         }
     }
@@ -84,7 +114,7 @@ impl Runner {
     pub fn finish(self) -> Ran {
         let pages = self.ex.real.page_count();
         let root = self.ex.real.root;
-        Ran { hist: self.hist, obs: self.obs, reject: self.reject, pages, root }
+        Ran { hist: self.hist, obs: self.obs, reject: self.reject, pages, root, deltas: self.deltas, roots: self.roots, pages_decoded: self.pages_decoded }
     }
     pub fn max_key_idx(&self) -> Option<usize> {
         let last = self.oracle.map.iter().next_back()?.0.clone();
@@ -112,11 +142,13 @@ fn final_scans(r: &mut Runner, rng: &mut Rng, nk: usize) {
     for _ in 0..2 { r.push(Op::Seek(rng.below(nk as u64) as usize, 40)); }
 }
 
-pub fn generate(rng: &mut Rng, kind: &str, budget: usize) -> Ran {
+pub fn generate(rng: &mut Rng, kind: &str, budget: usize) -> Ran { generate_t(rng, kind, budget, false) }
+pub fn generate_t(rng: &mut Rng, kind: &str, budget: usize, track: bool) -> Ran {
     let n_keys = match kind { "bigkeys" => 20 + rng.below(50) as usize, "halfpage" => 4 + rng.below(8) as usize, _ => 30 + rng.below(170) as usize };
     let keys = universe(rng, kind, n_keys);
     let nk = keys.len();
     let mut r = Runner::new(kind, keys);
+    r.track = track;
     let sizes = match kind {
         "halfpage" => Sizes { lo: 3000, hi: 9000, big_every: 3, big_lo: 9000, big_hi: 16300 },
         "bigkeys" => Sizes { lo: 0, hi: 600, big_every: 6, big_lo: 1000, big_hi: 5000 },
@@ -211,8 +243,10 @@ pub fn generate(rng: &mut Rng, kind: &str, budget: usize) -> Ran {
 }
 
 /// run a given history (replay): stops like the generator at the first unacceptable / out-of-scope result
-pub fn replay(h: &History) -> Ran {
+pub fn replay(h: &History) -> Ran { replay_t(h, false) }
+pub fn replay_t(h: &History, track: bool) -> Ran {
     let mut r = Runner::new(&h.kind, h.keys.clone());
+    r.track = track;
     for o in &h.ops { if !r.push(o.clone()) { break; } }
     r.finish()
 }
@@ -233,4 +267,18 @@ pub fn case_term(ran: &Ran) -> String {
 pub fn ran_line(ran: &Ran) -> String {
     let h = History { kind: ran.hist.kind.clone(), keys: ran.hist.keys.clone(), ops: ran.hist.ops[..ran.obs.len()].to_vec() };
     h.line()
+}
+
+/// C29 case: every operation with the root page and the decoded pages it changed
+pub fn case_term29(ran: &Ran) -> String {
+    let mut s = String::with_capacity(256 + ran.deltas.iter().map(|d| d.len() + 24).sum::<usize>());
+    s.push_str("Case 1 2 [");
+    for (i, k) in ran.hist.keys.iter().enumerate() { if i > 0 { s.push(';'); } s.push_str(&k.coq()); }
+    s.push_str("] [");
+    for (i, o) in ran.hist.ops.iter().enumerate().take(ran.deltas.len()) {
+        if i > 0 { s.push(';'); }
+        s.push_str(&format!("St ({}) {} {}", o.coq(), ran.roots[i], ran.deltas[i]));
+    }
+    s.push(']');
+    s
 }
